@@ -4,9 +4,8 @@ use crate::TypeGeneratorSettings;
 
 use super::type_ir::TypeIR;
 use super::ToTokensWithSettings;
-use proc_macro2::Span;
 use proc_macro2::{Ident, TokenStream};
-use quote::quote;
+use quote::{format_ident, quote};
 use scale_info::form::PortableForm;
 
 /// Represents a Rust `mod`, containing generated types and child `mod`s.
@@ -84,7 +83,8 @@ impl ModuleIR {
         if namespace.is_empty() {
             return self;
         }
-        let child_ident = Ident::new(&namespace[0], Span::call_site());
+        // `format_ident!` (unlike `Ident::new`) accepts raw identifiers: a module `r#mod` has the segment "r#mod".
+        let child_ident = format_ident!("{}", &namespace[0]);
         let child = self
             .children
             .entry(child_ident.clone())
